@@ -1,7 +1,9 @@
 (* C15 / C05 — executable model of /repo/fri/src (winter-fri): folding/mod.rs, utils.rs, options.rs,
    prover/{mod,channel}.rs, verifier/{mod,channel}.rs, proof.rs (decoded level), errors.rs.
    The model follows the REPAIRED working tree: `verify_generic` recomputes the remainder commitment
-   (fixes/c05-fri-remainder-commitment-check.diff); [verify_generic_unrepaired] is the code before it.
+   (fixes/c05-fri-remainder-commitment-check.diff); [verify_generic_unrepaired] is the code before it;
+   `FriVerifier::new` derives the domain size from max_poly_degree + 1
+   (fixes/c15-fri-verifier-domain-size.diff).
    NO proofs here (Proofs/Fri*.v).
 
    Conventions
@@ -20,7 +22,8 @@
        - `polynom::interpolate_batch` followed by `polynom::eval(p, alpha)` is the Lagrange form
          sum_j y_j * prod_{k<>j}(alpha - x_k) * inv(prod_{k<>j}(x_j - x_k))  ([interp_eval]); like
          `batch_inversion` it maps a zero denominator to zero, so it agrees with the code for ALL inputs;
-       - `fft::interpolate_poly_with_offset` of the remainder is [idft] + the same scaling loop.
+       - `fft::interpolate_poly_with_offset` of the remainder is a recursive radix-2 inverse FFT ([fft_rec],
+         equal to [idft]) + the same scaling loop.
      The correspondence run (checks/c15.py, checks/c05.py) compares every one of these values with the
      real crate.
    * Externals are Section variables: the digest type, `H::hash_elements`, the Merkle tree operations
@@ -185,6 +188,16 @@ Fixpoint peval (p : list F) (x : F) : F :=
 Fixpoint fpow (x : F) (n : nat) : F :=
   match n with 0 => one | S n' => x *f fpow x n' end.
 
+(* exp_vartime: square-and-multiply on the binary exponent (value = [fpow], Proofs/FriField.v fexp_spec) *)
+Fixpoint fpow_pos (x : F) (e : positive) : F :=
+  match e with
+  | xH => x
+  | xO e' => let r := fpow_pos x e' in r *f r
+  | xI e' => let r := fpow_pos x e' in x *f (r *f r)
+  end.
+Definition fexp (x : F) (n : nat) : F :=
+  match N.of_nat n with N0 => one | Npos p => fpow_pos x p end.
+
 (* E::from(n as u32) *)
 Fixpoint fnat (n : nat) : F := match n with 0 => zero | S n' => one +f fnat n' end.
 
@@ -203,9 +216,28 @@ Definition get_rou (k : nat) : res F :=
 Fixpoint power_series_from (start b : F) (n : nat) : list F :=
   match n with 0 => [] | S n' => start :: power_series_from (start *f b) b n' end.
 
-(* unnormalised inverse DFT of a list with respect to winv *)
+(* unnormalised inverse DFT of a list with respect to winv:  c_k = sum_j row_j * (winv^k)^j *)
 Definition idft (N : nat) (winv : F) (row : list F) : list F :=
-  map (fun k => peval row (fpow winv k)) (seq 0 N).
+  map (fun wk => peval row wk) (power_series_from one winv N).
+
+(* radix-2 decimation-in-time FFT on lists, natural order (value = [idft (2^k)], Proofs/FriField.v
+   fft_rec_idft); used for the remainder interpolation, whose domain can be large *)
+Fixpoint split_eo (l : list F) : list F * list F :=
+  match l with
+  | [] => ([], [])
+  | [a] => ([a], [])
+  | a :: b :: t => let (e, o) := split_eo t in (a :: e, b :: o)
+  end.
+Fixpoint fft_rec (k : nat) (w : F) (l : list F) : list F :=
+  match k with
+  | 0 => l
+  | S k' =>
+    let (e, o) := split_eo l in
+    let E := fft_rec k' (w *f w) e in
+    let Od := fft_rec k' (w *f w) o in
+    let T := map2 (fmul O) (power_series_from one w (2 ^ k')) Od in
+    map2 (fadd O) E T ++ map2 (fsub O) E T
+  end.
 
 (* `for coeff in poly.iter_mut() { *coeff *= offset; offset *= increment }` *)
 Fixpoint scale_series (v : list F) (offset increment : F) : list F :=
@@ -214,7 +246,7 @@ Fixpoint scale_series (v : list F) (offset increment : F) : list F :=
 (* get_inv_twiddles(n): the root the twiddles are powers of.  assert pow2; ilog2 <= TWO_ADICITY; get_root_of_unity *)
 Definition inv_twiddle_root (n : nat) : res F :=
   if negb (is_pow2 n) then Panic
-  else w <- get_rou (Nat.log2 n) ;; Ok (fpow w (n - 1)).
+  else w <- get_rou (Nat.log2 n) ;; Ok (fexp w (n - 1)).
 
 (* ---------------------------------------------------------------- folding/mod.rs apply_drp *)
 (* one row: interpolate (inverse FFT, scale by len_offset * inv_offset^k), evaluate at alpha *)
@@ -298,7 +330,7 @@ Definition interpolate_poly_with_offset (evaluations : list F) (offset : F) : re
   let n := length evaluations in
   winv <- inv_twiddle_root n ;;
   if feqb O offset zero then Panic
-  else Ok (scale_series (idft n winv evaluations) (finv O (fnat n)) (finv O offset)).
+  else Ok (scale_series (fft_rec (Nat.log2 n) winv evaluations) (finv O (fnat n)) (finv O offset)).
 
 (* set_remainder *)
 Definition set_remainder (p : prover) (c : pchannel) (evaluations : list F) : res (prover * pchannel) :=
@@ -454,7 +486,7 @@ Fixpoint draw_alphas (coin : CS) (commitments : list D) (depth last : nat) (mdp1
 (* FriVerifier::new; returns the verifier, the channel (commitments drained) and the coin *)
 Definition verifier_new (ch : vchannel) (coin : CS) (o : fri_options) (max_poly_degree : nat)
   : res (verifier * vchannel * CS) :=
-  let domain_size := next_pow2 max_poly_degree * fo_blowup o in
+  let domain_size := next_pow2 (max_poly_degree + 1) * fo_blowup o in   (* repaired: was next_pow2 max_poly_degree *)
   k <- ilog2 domain_size ;;
   g <- get_rou k ;;
   let commitments := vc_commitments ch in
@@ -500,7 +532,7 @@ Definition read_layer_queries (N : nat) (ch : vchannel) (indexes : list nat) (co
 
 (* x coordinates of the row at folded position i:  (g^i * offset) * folding_roots[j] *)
 Definition row_xs (folding_roots : list F) (g : F) (i : nat) : list F :=
-  let xe := fpow g i *f gen_offset in
+  let xe := fexp g i *f gen_offset in
   map (fun r => xe *f r) folding_roots.
 
 Record vstate : Type := mkVS {
@@ -523,7 +555,7 @@ Definition layer_step (N : nat) (v : verifier) (folding_roots : list F) (depth :
       alpha <- idx (v_alphas v) depth ;;
       let evals' := map2 (fun x r => interp_eval x r alpha) xs rows in
       if negb (vs_mdp1 s mod N =? 0) then Err (DegreeTruncation (vs_mdp1 s - 1) N depth)
-      else Ok (mkVS (fpow (vs_gen s) N) (vs_size s / N) (vs_mdp1 s / N) folded evals' ch').
+      else Ok (mkVS (fexp (vs_gen s) N) (vs_size s / N) (vs_mdp1 s / N) folded evals' ch').
 
 Fixpoint layers_loop (k : nat) (N : nat) (v : verifier) (folding_roots : list F) (depth : nat) (s : vstate)
   : res vstate :=
@@ -536,12 +568,12 @@ Fixpoint layers_loop (k : nat) (N : nat) (v : verifier) (folding_roots : list F)
 Fixpoint remainder_check (remainder : list F) (g : F) (positions : list nat) (evals : list F) : bool :=
   match positions, evals with
   | p :: ps, e :: es =>
-    feqb O (eval_horner remainder (gen_offset *f fpow g p)) e && remainder_check remainder g ps es
+    feqb O (eval_horner remainder (gen_offset *f fexp g p)) e && remainder_check remainder g ps es
   | _, _ => true
   end.
 
 Definition folding_roots_of (N : nat) (v : verifier) : list F :=
-  map (fun i => fpow (v_domain_generator v) (v_domain_size v / N * i)) (seq 0 N).
+  map (fun i => fexp (v_domain_generator v) (v_domain_size v / N * i)) (seq 0 N).
 
 (* the remainder part of verify_generic; [check_commitment] = true for the repaired code *)
 Definition verify_remainder (check_commitment : bool) (v : verifier) (num_layers : nat) (s : vstate) : res unit :=
